@@ -66,9 +66,16 @@ func (r *run) violation(kind, op, detail string) {
 	}
 }
 
-var sentinel = knxnet.AllocAndPack(&knxnet.ConnStateRes{Channel: 250, Status: 0})
+// the sentinel frame: a service no generator produces (an unknown service id with a 14-byte body)
+var sentinel = append([]byte{6, 16, 0xf0, 0x0d, 0, 20}, []byte("verif-sentinel")...)
 
-const sentinelText = "ConnStateRes 250 0"
+var sentinelText = func() string {
+	var s knxnet.Service
+	if _, err := knxnet.Unpack(sentinel, &s); err != nil {
+		panic(err)
+	}
+	return ktext.Join(ktext.Service(s))
+}()
 
 // collect reads the socket's Inbound until the sentinel, the channel's closing or a timeout.
 func collect(in <-chan knxnet.Service, wait time.Duration) (out []string, tail string) {
